@@ -52,9 +52,11 @@ PadCompletion(bs) ==
 RECURSIVE Tz(_)
 Tz(b) == IF b % 2 = 1 THEN 0 ELSE 1 + Tz(b \div 2)                          \* trailing zeros, b # 0
 \* inverse: padded bytes with tag -> BitStr ; requires last byte # 0
+\* (total: data without a completion tag - empty, or last byte 0 - denotes nothing; callers check the tag separately)
 StripCompletion(y) ==
-    LET k == Len(y)  t == Tz(y[k])
-    IN [n |-> 8 * k - 1 - t, y |-> IF t = 7 THEN SubSeq(y, 1, k - 1) ELSE [y EXCEPT ![k] = @ - 2^t]]
+    IF y = <<>> \/ y[Len(y)] = 0 THEN [n |-> 0, y |-> <<>>]
+    ELSE LET k == Len(y)  t == Tz(y[k])
+         IN [n |-> 8 * k - 1 - t, y |-> IF t = 7 THEN SubSeq(y, 1, k - 1) ELSE [y EXCEPT ![k] = @ - 2^t]]
 
 \* ---- two's complement / unsigned encodings of small values as bit sequences (model level)
 NatBits(v, w) == [i \in 1..w |-> IF w - i > 30 THEN 0 ELSE (v \div 2^(w - i)) % 2]
